@@ -56,6 +56,13 @@ def catalogue():
     c["dict-typed"] = ({"k": "Dict", "key": {"k": "Str", "o": {"transform_strip": True}}, "val": {"k": "Int", "o": {"min": 0, "max": 9}},
                         "o": {"default": D(("d", 1))}}, [D(("k", 1)), D((" K ", "2"))], [D(("k", "x")), [1], D(("k", 10)), "k"])
     c["dict-any"] = ({"k": "Dict"}, [D(("k", 1)), D()], [[1], "x"])
+    c["list-int-cd"] = ({"k": "List", "item": {"k": "Int", "o": {"min": 0, "max": 9}}, "o": {"default": [1, 2], "default_callable": True}},
+                        [[2], [1, "2"]], [[1, "x"], 5])
+    c["dict-typed-cd"] = ({"k": "Dict", "key": {"k": "Str", "o": {"transform_strip": True}}, "val": {"k": "Int", "o": {"min": 0, "max": 9}},
+                           "o": {"default": D(("d", 1)), "default_callable": True}}, [D(("k", 1)), D((" K ", "2"))], [D(("k", "x")), [1]])
+    c["int-cd"] = ({"k": "Int", "o": {"default": 3, "default_callable": True}}, [1, "2"], ["x"])
+    c["challenge-dflt"] = ({"k": "Challenge", "o": {"hash_algorithm": "sha1", "default": "dfl-secret"}}, ["pw", "pw2"], [5])
+    c["list-any-dflt"] = ({"k": "List", "o": {"default": [1, [2]]}}, [[3]], ["x"])
     return c
 
 
@@ -79,6 +86,11 @@ def shape(name, leaf):
         item = {"k": "Schema", "fields": [["c", L], ["r", {"k": "Str", "o": {"required": True}}]]}
         ct = {"k": "CType", "name": "CT", "fields": [["c", L]]}
         return {"fields": [["items", {"k": "List", "item": item}], ["t", ct], ["ts", {"k": "List", "item": ct}], w]}
+    if name == "reuse":      # one sub-schema / config type reused as the item type of several lists
+        item = {"k": "Schema", "name": "ItemS", "fields": [["c", L], ["r", {"k": "Str", "o": {"required": True}}]]}
+        ct = {"k": "CType", "name": "CT", "fields": [["c", L]]}
+        return {"fields": [["items", {"k": "List", "item": item}], ["l2", {"k": "List", "item": item}], ["t", ct], ["ts", {"k": "List", "item": ct}],
+                           ["ts2", {"k": "List", "item": ct}], w]}
     if name == "dynamic":
         return {"fields": [["dyn", {"k": "Schema", "dynamic": True, "fields": [["x", L]]}], w], "dynamic": True}
     raise ValueError(name)
@@ -94,11 +106,16 @@ class Built:
         import cincoconfig as cc
         self.spec = spec
         self.ctypes = {}
+        self.named = {}
         self.counters = collections.Counter()
         self.schema = self._schema(spec, cc)
 
     def _schema(self, spec, cc, into=None):
+        if into is None and spec.get("name") and spec["name"] in self.named:
+            return self.named[spec["name"]]
         s = into if into is not None else cc.Schema(dynamic=bool(spec.get("dynamic")))
+        if into is None and spec.get("name"):
+            self.named[spec["name"]] = s
         for key, f in spec["fields"]:
             k = f["k"]
             if k == "Schema":
@@ -141,6 +158,48 @@ class Built:
         return self.ctypes[f["name"]]
 
 
+def schema_snap(schema):
+    """deep snapshot of a schema: field set, every field's options and declared default"""
+    import cincoconfig as cc
+
+    def fsnap(field, depth=0):
+        items = [("type", type(field).__name__)]
+        for k, v in sorted(vars(field).items()):
+            if k == "_schema":
+                continue
+            if isinstance(v, cc.Schema):
+                items.append((k, "schema:" + repr(sorted(v._fields))))
+            elif isinstance(v, (cc.Field, cc.core.BaseField)) and depth < 3:
+                items.append((k, fsnap(v, depth + 1)))
+            elif callable(v) and not isinstance(v, type):
+                items.append((k, "callable"))
+            else:
+                try:
+                    items.append((k, repr(V.canon(v))))
+                except Exception:  # noqa
+                    items.append((k, repr(v)))
+        return tuple(items)
+    out = []
+
+    def walk(sch, pre):
+        out.append((pre + "<schema>", tuple(sorted(sch._fields)), bool(sch._dynamic), len(sch._validators)))
+        for key, field in sch._fields.items():
+            if isinstance(field, cc.Schema):
+                walk(field, pre + key + ".")
+            else:
+                out.append((pre + key, fsnap(field)))
+                inner = getattr(field, "field", None)
+                if isinstance(inner, cc.Schema):
+                    walk(inner, pre + key + "[].")
+                elif isinstance(inner, type) and hasattr(inner, "__schema__"):
+                    walk(inner.__schema__, pre + key + "[]<type>.")
+                ct = getattr(field, "config_type", None)
+                if ct is not None:
+                    walk(ct.__schema__, pre + key + "<type>.")
+    walk(schema, "")
+    return tuple(out)
+
+
 def subspec(spec, path):
     """field spec at dotted path ('items[]' steps into a list's item spec)"""
     cur = spec
@@ -178,7 +237,7 @@ def chained(cfg, path):
 # ---------------------------------------------------------------------------------------------
 # snapshots (through the public readers only)
 # ---------------------------------------------------------------------------------------------
-def snapshot(cfg, with_ids=False):
+def snapshot(cfg, with_ids=False, abstract=False):
     """canonical, hashable whole-state snapshot: (key, kind, value, user-defined?) at every depth"""
     import cincoconfig as cc
     items = []
@@ -188,22 +247,21 @@ def snapshot(cfg, with_ids=False):
         except Exception as exc:  # noqa
             defined = "ERR:" + type(exc).__name__
         if isinstance(value, cc.Config):
-            items.append((key, "cfg", snapshot(value, with_ids), defined) + ((id(value),) if with_ids else ()))
+            items.append((key, "cfg", snapshot(value, with_ids, abstract), defined) + ((id(value),) if with_ids else ()))
         elif isinstance(value, list) and value and all(isinstance(x, cc.Config) for x in value):
-            items.append((key, "cfgs:" + type(value).__name__, tuple(snapshot(x, with_ids) for x in value), defined)
+            items.append((key, "cfgs:" + type(value).__name__, tuple(snapshot(x, with_ids, abstract) for x in value), defined)
                          + ((tuple(id(x) for x in value),) if with_ids else ()))
         else:
-            items.append((key, "val", _vcanon(value), defined))
+            items.append((key, "val", _abstract_digests(V.canon(value)) if abstract else V.canon(value), defined))
     return tuple(items)
 
 
-def _vcanon(v):
-    c = V.canon(v)
-    return _abstract_digests(c)
-
-
 def _abstract_digests(c):
-    """DigestValues carry entropy (salt): keep (algorithm, salt, digest) - they only change when re-assigned"""
+    """salted digests carry entropy: keep only (algorithm, salt length, digest length)"""
+    if isinstance(c, tuple):
+        if c and c[0] == "dg":
+            return ("dg", c[3], len(c[1]), len(c[2]))
+        return tuple(_abstract_digests(x) for x in c)
     return c
 
 
